@@ -143,6 +143,24 @@ Theorem write_through_durable_partial : forall ops img,
 Proof. exact auto_flush_durable. Qed.
 Print Assumptions write_through_durable_partial.
 
+(* formats with a frame count in the header (DCD): durability needs the side condition that the header is refreshed
+   after EVERY frame (hevery = 1), or that the reader derives the count from the file size (trust = false) *)
+Theorem header_count_durable_partial : forall trust ops, hload trust (hrun 1 ops) = written ops.
+Proof. exact header_count_durable. Qed.
+Print Assumptions header_count_durable_partial.
+
+Theorem size_derived_count_durable_partial : forall hevery ops, hload false (hrun hevery ops) = written ops.
+Proof. exact size_derived_count_durable. Qed.
+Print Assumptions size_derived_count_durable_partial.
+
+(* without the side condition: header refreshed every 8th frame + a reader that trusts a non-zero header *)
+Theorem header_refreshed_every_8_frames_refuted :
+  hload true (hrun 8 [DWrite [1; 2; 3; 4; 5]; DWrite [6; 7; 8; 9; 10; 11]]) = [1; 2; 3; 4; 5; 6; 7; 8] /\
+  hload true (hrun 8 [DWrite [1; 2; 3; 4; 5]; DWrite [6; 7; 8; 9; 10; 11]; DClose]) = [1; 2; 3; 4; 5; 6; 7; 8; 9; 10; 11] /\
+  hload true (hrun 8 [DWrite [1; 2; 3; 4; 5; 6; 7]]) = [1; 2; 3; 4; 5; 6; 7].
+Proof. exact header_refresh_every_8_loses_frames. Qed.
+Print Assumptions header_refreshed_every_8_frames_refuted.
+
 (* ---- reflection over the write() methods themselves (Writer/Dsl.v; programs regenerated from /repo by the
    translator of harness/props/C19.py into Gen/WriterPrograms.v on every run) *)
 
